@@ -1,13 +1,16 @@
 // C13: reading through a reference equals reading its current target.
-//   cond / a / b (/ c) scripted sources -> sel = if_then_else_impl(cond, a, b)  (MODE 0, 2, 3)
-//                                          sel = if_cmp_impl(cmp, a, b, c)      (MODE 1)
+//   selector / a / b (/ c) scripted sources -> sel = if_then_else_impl(cond, a, b)  (modes 0, 2, 3)
+//                                              sel = if_cmp_impl(cmp, a, b, c)      (mode 1)
 //   (both structs extracted verbatim from the CURRENT control_impl.h by lib/hreg/C13.py pre_build)
 //   two recording consumers below sel (In<TS<int>> / In<TSS<int>>: the REF output is dereferenced by the
-//   runtime's from-reference alternative), MODE 3: the second consumer sits inside a nested graph node and
+//   runtime's from-reference alternative); mode 3: the second consumer sits inside a nested graph node and
 //   receives the reference across the graph boundary.
-//   symbolic  : every payload value of the targets
-//   enumerated: per cycle which of cond / a / b (/ c) tick and what cond selects (relative timing of retargets
-//               and target ticks, re-selection of the same target, retarget back)
+//   modes (enumerated first): 0 if_then_else over TS<int>; 1 if_cmp over TS<int> (three targets);
+//                             2 if_then_else over TSS<int>; 3 if_then_else over TS<int>, consumer 1 nested
+//   symbolic  : every payload value of the TS targets (drawn by the source nodes in the cycle they are used)
+//   enumerated: per cycle whether the selector ticks and what it selects, which targets tick (sets: which
+//               element is added / removed) - i.e. the relative timing of retargets and target ticks,
+//               re-selection of the same target, retarget back
 //   oracle    : a consumer is evaluated in cycle k  <=>  the selected target ticked in k, or the reference was
 //               retargeted in k to a target that already has a value; at every evaluation it reads the selected
 //               target's current value, valid and modified; republishing the same selection and ticks of
@@ -16,16 +19,24 @@
 #include "hk.h"
 
 #include "c13_extracted_control_impl.h"
-
-#include <hgraph/runtime/nested_graph_node.h>
+#include "hk_nested.h"
 
 #include <cstdio>
 
-#ifndef MODE
-#define MODE 0  // 0 if_then_else TS<int>; 1 if_cmp TS<int>; 2 if_then_else TSS<int>; 3 if_then_else TS<int>, consumer 1 nested
+#ifndef MODES
+#define MODES 0xf  // bit m enables mode m
 #endif
-#ifndef NCYC
-#define NCYC 4
+#ifndef NCYC0
+#define NCYC0 4
+#endif
+#ifndef NCYC1
+#define NCYC1 3
+#endif
+#ifndef NCYC2
+#define NCYC2 2
+#endif
+#ifndef NCYC3
+#define NCYC3 3
 #endif
 #ifndef VMAX
 #define VMAX 1000
@@ -35,197 +46,211 @@ using namespace hk;
 using hgraph::stdlib::CmpResult;
 
 namespace {
-constexpr int NT = (MODE == 1) ? 3 : 2;  // number of targets
+constexpr int MAXT = 3;  // targets (if_cmp has three)
+constexpr int MAXC = 6;  // cycles
 constexpr int NCONS = 2;
+static_assert(NCYC0 <= MAXC && NCYC1 <= MAXC && NCYC2 <= MAXC && NCYC3 <= MAXC, "raise MAXC");
 
 // ---- script (filled before the run) --------------------------------------------------------------
-int g_sel[NCYC];            // 0: selector does not tick; 1..NT: selector ticks and selects target (value-1)
-bool g_tick[NT][NCYC];      // target i ticks in cycle c
-Int g_val[NT][NCYC];        // payload (TS: the value; TSS: element added is concrete, see below)
-int g_sop[NT][NCYC];        // TSS mode: 1 add 1, 2 add 2, 3 remove 1, 4 remove 2
+int g_ncyc = 0;
+int g_sel[MAXC];          // 0: selector does not tick; 1..nt: selector ticks and selects target (value-1)
+bool g_tick[MAXT][MAXC];  // target i ticks in cycle c
+Int g_val[MAXT][MAXC];    // TS payload
+int g_sop[MAXT][MAXC];    // set targets: 1 add 1, 2 add 2, 3 remove 1
 DateTime g_t0;
 
 inline int cycle_of(DateTime now) { return (int)((now - g_t0).count()); }
 
 // ---- observation log -----------------------------------------------------------------------------
 struct Obs { int cycle; bool valid; bool modified; Int value; bool has[3]; bool added[3]; bool removed[3]; };
-Obs g_obs[NCONS][NCYC + 2];
+Obs g_obs[NCONS][MAXC + 2];
 int g_nobs[NCONS];
 bool g_obs_overflow = false;
+Obs *next_obs(int k) {
+    if (g_nobs[k] >= MAXC + 2) { g_obs_overflow = true; return nullptr; }
+    return &g_obs[k][g_nobs[k]++];
+}
 
 // ---- nodes ---------------------------------------------------------------------------------------
-struct Selector {  // TS<Bool> for if_then_else, TS<CmpResult> for if_cmp
-    static constexpr auto name = "selector";
+struct SelBool {
+    static constexpr auto name = "c13_sel_bool";
     static constexpr bool schedule_on_start = true;
-#if MODE == 1
+    static void eval(NodeScheduler s, DateTime now, Out<TS<Bool>> out) {
+        int c = cycle_of(now);
+        if (c < 0 || c >= g_ncyc) return;
+        g_sel[c] = verif_choice("sel", 3);
+        if (g_sel[c] == 1) out.set(true);   // selects target 0 (true_value)
+        if (g_sel[c] == 2) out.set(false);  // selects target 1 (false_value)
+        if (c + 1 < g_ncyc) s.schedule(MIN_TD);
+    }
+};
+struct SelCmp {
+    static constexpr auto name = "c13_sel_cmp";
+    static constexpr bool schedule_on_start = true;
     static void eval(NodeScheduler s, DateTime now, Out<TS<CmpResult>> out) {
         int c = cycle_of(now);
-        if (c < 0 || c >= NCYC) return;
+        if (c < 0 || c >= g_ncyc) return;
+        g_sel[c] = verif_choice("sel", 4);
         if (g_sel[c] == 1) out.set(CmpResult::LT);
         if (g_sel[c] == 2) out.set(CmpResult::EQ);
         if (g_sel[c] == 3) out.set(CmpResult::GT);
-        if (c + 1 < NCYC) s.schedule(MIN_TD);
+        if (c + 1 < g_ncyc) s.schedule(MIN_TD);
     }
-#else
-    static void eval(NodeScheduler s, DateTime now, Out<TS<Bool>> out) {
-        int c = cycle_of(now);
-        if (c < 0 || c >= NCYC) return;
-        if (g_sel[c] == 1) out.set(true);   // selects target 0 (true_value)
-        if (g_sel[c] == 2) out.set(false);  // selects target 1 (false_value)
-        if (c + 1 < NCYC) s.schedule(MIN_TD);
-    }
-#endif
 };
-
-#if MODE == 2
-using Target = TSS<Int>;
-struct Src {
-    static constexpr auto name = "src";
+struct SrcI {
+    static constexpr auto name = "c13_src_int";
+    static constexpr bool schedule_on_start = true;
+    static void eval(NodeScheduler s, Scalar<"id", Int> id, DateTime now, Out<TS<Int>> out) {
+        int c = cycle_of(now), i = (int)id.value();
+        if (c < 0 || c >= g_ncyc) return;
+        g_tick[i][c] = verif_bool("tick");
+        g_val[i][c] = g_tick[i][c] ? verif_range("v", -VMAX, VMAX) : Int{0};
+        if (g_tick[i][c]) out.set(g_val[i][c]);
+        if (c + 1 < g_ncyc) s.schedule(MIN_TD);
+    }
+};
+struct SrcS {
+    static constexpr auto name = "c13_src_set";
     static constexpr bool schedule_on_start = true;
     static void eval(NodeScheduler s, Scalar<"id", Int> id, DateTime now, Out<TSS<Int>> out) {
         int c = cycle_of(now), i = (int)id.value();
-        if (c < 0 || c >= NCYC) return;
+        if (c < 0 || c >= g_ncyc) return;
+        g_sop[i][c] = verif_choice("sop", 4);  // 0 no tick
+        g_tick[i][c] = g_sop[i][c] != 0;
         if (g_tick[i][c]) {
             int op = g_sop[i][c];
             if (op == 1) out.add(Int{1});
             if (op == 2) out.add(Int{2});
             if (op == 3) out.remove(Int{1});
-            if (op == 4) out.remove(Int{2});
         }
-        if (c + 1 < NCYC) s.schedule(MIN_TD);
+        if (c + 1 < g_ncyc) s.schedule(MIN_TD);
     }
 };
-struct Cons {
-    static constexpr auto name = "cons";
-    static void eval(In<"x", TSS<Int>> x, Scalar<"id", Int> id, DateTime now) {
-        int k = (int)id.value();
-        if (g_nobs[k] >= NCYC + 2) { g_obs_overflow = true; return; }
-        Obs &o = g_obs[k][g_nobs[k]++];
-        o.cycle = cycle_of(now);
-        o.valid = x.valid();
-        o.modified = x.modified();
-        o.value = 0;
-        for (int e = 1; e <= 2; e++) {
-            o.has[e] = x.contains(Int{e});
-            o.added[e] = false;
-            o.removed[e] = false;
-        }
-        for (const auto &e : x.added()) { Int v = e; if (v >= 1 && v <= 2) o.added[v] = true; }
-        for (const auto &e : x.removed()) { Int v = e; if (v >= 1 && v <= 2) o.removed[v] = true; }
-    }
-};
-#else
-using Target = TS<Int>;
-struct Src {
-    static constexpr auto name = "src";
-    static constexpr bool schedule_on_start = true;
-    static void eval(NodeScheduler s, Scalar<"id", Int> id, DateTime now, Out<TS<Int>> out) {
-        int c = cycle_of(now), i = (int)id.value();
-        if (c < 0 || c >= NCYC) return;
-        if (g_tick[i][c]) out.set(g_val[i][c]);
-        if (c + 1 < NCYC) s.schedule(MIN_TD);
-    }
-};
-struct Cons {
-    static constexpr auto name = "cons";
+struct ConsI {
+    static constexpr auto name = "c13_cons_int";
     static void eval(In<"x", TS<Int>> x, Scalar<"id", Int> id, DateTime now) {
-        int k = (int)id.value();
-        if (g_nobs[k] >= NCYC + 2) { g_obs_overflow = true; return; }
-        Obs &o = g_obs[k][g_nobs[k]++];
-        o.cycle = cycle_of(now);
-        o.valid = x.valid();
-        o.modified = x.modified();
-        o.value = o.valid ? x.value() : Int{0};
+        Obs *o = next_obs((int)id.value());
+        if (!o) return;
+        o->cycle = cycle_of(now);
+        o->valid = x.valid();
+        o->modified = x.modified();
+        o->value = o->valid ? x.value() : Int{0};
     }
 };
-#endif
-
-#if MODE == 3
-// the second consumer lives in a nested graph; the reference crosses the boundary as a REF-typed argument
-CompiledSubGraph compile_child(const TSValueTypeMetaData *arg_schema) {
-    Wiring cw{WiringKind::SubGraph};
-    Port<TS<Int>> x{cw, WiringPortRef::boundary_source(0, {}, arg_schema)};
-    wire<Cons>(cw, x, Int{1});
-    return std::move(cw).finish_subgraph(WiringPortRef{}, {arg_schema});
-}
-#endif
-
-struct Top {
-    static constexpr auto name = "top";
-    static void compose(Wiring &w) {
-        auto sel = wire<Selector>(w);
-        auto a = wire<Src>(w, Int{0});
-        auto b = wire<Src>(w, Int{1});
-#if MODE == 1
-        auto c = wire<Src>(w, Int{2});
-        auto r = wire<stdlib::if_cmp_impl>(w, sel, a, b, c);
-#else
-        auto r = wire<stdlib::if_then_else_impl>(w, sel, a, b);
-#endif
-        wire<Cons>(w, r, Int{0});
-#if MODE == 3
-        wire_nested_consumer(w, r);
-#else
-        wire<Cons>(w, r, Int{1});
-#endif
+struct ConsS {
+    static constexpr auto name = "c13_cons_set";
+    static void eval(In<"x", TSS<Int>> x, Scalar<"id", Int> id, DateTime now) {
+        Obs *o = next_obs((int)id.value());
+        if (!o) return;
+        o->cycle = cycle_of(now);
+        o->valid = x.valid();
+        o->modified = x.modified();
+        o->value = 0;
+        for (int e = 1; e <= 2; e++) {
+            o->has[e] = x.contains(Int{e});
+            o->added[e] = false;
+            o->removed[e] = false;
+        }
+        for (Int v : x.added()) if (v >= 1 && v <= 2) o->added[v] = true;
+        for (Int v : x.removed()) if (v >= 1 && v <= 2) o->removed[v] = true;
     }
-#if MODE == 3
-    template <class P> static void wire_nested_consumer(Wiring &w, const P &r);
-#endif
+};
+
+struct TopIte {
+    static constexpr auto name = "c13_ite";
+    static void compose(Wiring &w) {
+        auto sel = wire<SelBool>(w);
+        auto a = wire<SrcI>(w, Int{0});
+        auto b = wire<SrcI>(w, Int{1});
+        auto r = wire<stdlib::if_then_else_impl>(w, sel, a, b);
+        wire<ConsI>(w, r, Int{0});
+        wire<ConsI>(w, r, Int{1});
+    }
+};
+struct TopCmp {
+    static constexpr auto name = "c13_cmp";
+    static void compose(Wiring &w) {
+        auto sel = wire<SelCmp>(w);
+        auto a = wire<SrcI>(w, Int{0});
+        auto b = wire<SrcI>(w, Int{1});
+        auto c = wire<SrcI>(w, Int{2});
+        auto r = wire<stdlib::if_cmp_impl>(w, sel, a, b, c);
+        wire<ConsI>(w, r, Int{0});
+        wire<ConsI>(w, r, Int{1});
+    }
+};
+struct TopSet {
+    static constexpr auto name = "c13_ite_set";
+    static void compose(Wiring &w) {
+        auto sel = wire<SelBool>(w);
+        auto a = wire<SrcS>(w, Int{0});
+        auto b = wire<SrcS>(w, Int{1});
+        auto r = wire<stdlib::if_then_else_impl>(w, sel, a, b);
+        wire<ConsS>(w, r, Int{0});
+        wire<ConsS>(w, r, Int{1});
+    }
+};
+struct NestedConsumerTag {};
+struct TopNested {
+    static constexpr auto name = "c13_ite_nested";
+    static void compose(Wiring &w) {
+        auto sel = wire<SelBool>(w);
+        auto a = wire<SrcI>(w, Int{0});
+        auto b = wire<SrcI>(w, Int{1});
+        auto r = wire<stdlib::if_then_else_impl>(w, sel, a, b);
+        wire<ConsI>(w, r, Int{0});
+        // the second consumer lives in a child graph behind a real single_nested_graph_node; the reference output is
+        // the boundary argument, dereferenced inside the child
+        (void)hk::nested_call(w, "c13_child", std::type_index(typeid(NestedConsumerTag)), {r.erased()},
+                              [](Wiring &cw, std::span<const WiringPortRef> in) -> std::optional<WiringPortRef> {
+                                  wire<ConsI>(cw, Port<TS<Int>>{cw, in[0]}, Int{1});
+                                  return std::nullopt;
+                              });
+    }
 };
 }  // namespace
 
-#if MODE == 3
-#include "c13_nested.inc"
-#endif
-
 extern "C" int harness_main() {
-    // ---- script: enumerated timing, symbolic payloads
-    for (int c = 0; c < NCYC; c++) {
-        g_sel[c] = verif_choice("sel", NT + 1);
-        for (int i = 0; i < NT; i++) {
-            g_tick[i][c] = verif_bool("tick");
-#if MODE == 2
-            g_sop[i][c] = g_tick[i][c] ? 1 + verif_choice("sop", 4) : 0;
-            g_val[i][c] = 0;
-#else
-            g_val[i][c] = g_tick[i][c] ? verif_range("v", -VMAX, VMAX) : Int{0};
-#endif
-        }
-    }
+    // ---- mode first; the script (enumerated timing, symbolic payloads) is drawn lazily by the source nodes in the cycle
+    // that uses it, so that all histories share the graph build and their common prefix of cycles
+    const int mode = verif_choice("mode", 4);
+    if (!((MODES >> mode) & 1)) { verif_end_path(); return 0; }
+    const int nt = mode == 1 ? 3 : 2;
+    const bool sets = mode == 2;
+    g_ncyc = mode == 0 ? NCYC0 : mode == 1 ? NCYC1 : mode == 2 ? NCYC2 : NCYC3;
     g_t0 = MIN_ST;
-    run_sim(build_graph<Top>(), g_t0, g_t0 + TimeDelta{NCYC + 2});
+    {
+        GraphBuilder gb = mode == 0 ? build_graph<TopIte>() : mode == 1 ? build_graph<TopCmp>() : mode == 2 ? build_graph<TopSet>() : build_graph<TopNested>();
+        run_sim(std::move(gb), g_t0, g_t0 + TimeDelta{g_ncyc + 2});
+    }
 
     // ---- model of what the statement promises
-    bool t_valid[NT] = {};
-    Int t_val[NT] = {};
-    bool t_has[NT][3] = {};
+    bool t_valid[MAXT] = {};
+    Int t_val[MAXT] = {};
+    bool t_has[MAXT][3] = {};
     int cur = -1;  // currently referenced target
-    bool exp_eval[NCYC];
-    Int exp_val[NCYC];
-    bool exp_has[NCYC][3], exp_added[NCYC][3], exp_removed[NCYC][3];
-    bool any_retarget_valid = false, any_retarget_invalid = false, any_reselect = false, any_unselected = false, any_back = false, any_same_cycle = false;
+    bool exp_eval[MAXC];
+    Int exp_val[MAXC];
+    bool exp_has[MAXC][3], exp_added[MAXC][3], exp_removed[MAXC][3];
+    bool any_retarget_valid = false, any_retarget_invalid = false, any_reselect = false, any_unselected = false, any_back = false, any_same_cycle = false,
+         any_set_diff = false;
     int first_target = -1;
-    for (int c = 0; c < NCYC; c++) {
+    for (int c = 0; c < g_ncyc; c++) {
         bool before[3] = {false, false, false};
         if (cur >= 0) for (int e = 1; e <= 2; e++) before[e] = t_has[cur][e];
-        bool ticked[NT];
-        for (int i = 0; i < NT; i++) {
-            ticked[i] = false;
+        bool ticked[MAXT] = {};
+        for (int i = 0; i < nt; i++) {
             if (!g_tick[i][c]) continue;
-#if MODE == 2
-            int op = g_sop[i][c];
-            int e = (op == 1 || op == 3) ? 1 : 2;
-            bool add = op <= 2;
-            // a TSS output ticks on every add/remove call (a no-op on a valid set is an empty tick)
-            ticked[i] = true;
-            t_has[i][e] = add;
+            ticked[i] = true;  // (a set output ticks on every add/remove call: a no-op on a valid set is an empty tick)
             t_valid[i] = true;
-#else
-            ticked[i] = true;
-            t_val[i] = g_val[i][c];
-            t_valid[i] = true;
-#endif
+            if (sets) {
+                int op = g_sop[i][c];
+                if (op == 1) t_has[i][1] = true;
+                if (op == 2) t_has[i][2] = true;
+                if (op == 3) t_has[i][1] = false;
+            } else {
+                t_val[i] = g_val[i][c];
+            }
         }
         bool retarget = false;
         if (g_sel[c] != 0) {
@@ -240,7 +265,7 @@ extern "C" int harness_main() {
             }
             cur = want;
         }
-        for (int i = 0; i < NT; i++) if (ticked[i] && i != cur) any_unselected = true;
+        for (int i = 0; i < nt; i++) if (ticked[i] && i != cur) any_unselected = true;
         exp_eval[c] = cur >= 0 && t_valid[cur] && (ticked[cur] || retarget);
         exp_val[c] = cur >= 0 ? t_val[cur] : Int{0};
         for (int e = 1; e <= 2; e++) {
@@ -248,6 +273,7 @@ extern "C" int harness_main() {
             exp_has[c][e] = now_has;
             exp_added[c][e] = now_has && !before[e];
             exp_removed[c][e] = !now_has && before[e];
+            if (retarget && exp_eval[c] && (exp_added[c][e] || exp_removed[c][e]) && (before[1] || before[2])) any_set_diff = true;
         }
     }
 
@@ -256,24 +282,24 @@ extern "C" int harness_main() {
     bool ok_when = true, ok_value = true, ok_flags = true, ok_delta = true;
     int evals = 0;
     for (int k = 0; k < NCONS; k++) {
-        bool seen[NCYC] = {};
+        bool seen[MAXC] = {};
         for (int n = 0; n < g_nobs[k]; n++) {
             const Obs &o = g_obs[k][n];
-            if (o.cycle < 0 || o.cycle >= NCYC) { ok_when = false; continue; }
+            if (o.cycle < 0 || o.cycle >= g_ncyc) { ok_when = false; continue; }
             if (seen[o.cycle]) ok_when = false;  // at most one evaluation per cycle
             seen[o.cycle] = true;
             evals++;
             ok_flags &= o.valid & o.modified;
-#if MODE == 2
-            for (int e = 1; e <= 2; e++) {
-                ok_value &= (o.has[e] == exp_has[o.cycle][e]);
-                ok_delta &= (o.added[e] == exp_added[o.cycle][e]) & (o.removed[e] == exp_removed[o.cycle][e]);
+            if (sets) {
+                for (int e = 1; e <= 2; e++) {
+                    ok_value &= (o.has[e] == exp_has[o.cycle][e]);
+                    ok_delta &= (o.added[e] == exp_added[o.cycle][e]) & (o.removed[e] == exp_removed[o.cycle][e]);
+                }
+            } else {
+                ok_value &= (o.value == exp_val[o.cycle]);
             }
-#else
-            ok_value &= (o.value == exp_val[o.cycle]);
-#endif
         }
-        for (int c = 0; c < NCYC; c++) ok_when &= (seen[c] == exp_eval[c]);
+        for (int c = 0; c < g_ncyc; c++) ok_when &= (seen[c] == exp_eval[c]);
     }
 #ifdef C13_DEBUG
     for (int k = 0; k < NCONS; k++)
@@ -282,9 +308,10 @@ extern "C" int harness_main() {
             std::fprintf(stderr, "cons%d cycle=%d valid=%d mod=%d value=%ld has={%d,%d} added={%d,%d} removed={%d,%d}\n", k, o.cycle, (int)o.valid, (int)o.modified, (long)o.value,
                          (int)o.has[1], (int)o.has[2], (int)o.added[1], (int)o.added[2], (int)o.removed[1], (int)o.removed[2]);
         }
-    for (int c = 0; c < NCYC; c++)
-        std::fprintf(stderr, "cycle %d sel=%d ticks=%d%d exp_eval=%d exp_val=%ld exp_has={%d,%d} exp_added={%d,%d} exp_removed={%d,%d}\n", c, g_sel[c], (int)g_tick[0][c], (int)g_tick[1][c],
-                     (int)exp_eval[c], (long)exp_val[c], (int)exp_has[c][1], (int)exp_has[c][2], (int)exp_added[c][1], (int)exp_added[c][2], (int)exp_removed[c][1], (int)exp_removed[c][2]);
+    for (int c = 0; c < g_ncyc; c++)
+        std::fprintf(stderr, "cycle %d sel=%d ticks=%d%d%d sop=%d%d exp_eval=%d exp_val=%ld exp_has={%d,%d} exp_added={%d,%d} exp_removed={%d,%d}\n", c, g_sel[c], (int)g_tick[0][c],
+                     (int)g_tick[1][c], (int)g_tick[2][c], g_sop[0][c], g_sop[1][c], (int)exp_eval[c], (long)exp_val[c], (int)exp_has[c][1], (int)exp_has[c][2], (int)exp_added[c][1],
+                     (int)exp_added[c][2], (int)exp_removed[c][1], (int)exp_removed[c][2]);
 #endif
     verif_assert(ok_when, "C13.evaluated_iff_target_ticked_or_retargeted_to_valid");
     verif_assert(ok_value, "C13.reads_current_target_value");
@@ -297,7 +324,9 @@ extern "C" int harness_main() {
     if (any_reselect) verif_reach("same_target_reselected");
     if (any_unselected) verif_reach("unselected_target_ticked");
     if (any_back) verif_reach("retarget_back");
-    if (evals > 0) verif_reach("consumer_evaluated");
+    if (any_set_diff) verif_reach("set_retarget_with_difference");
+    if (evals > 0) verif_reach(mode == 0 ? "consumer_evaluated_if_then_else" : mode == 1 ? "consumer_evaluated_if_cmp" : mode == 2 ? "consumer_evaluated_set" : "consumer_evaluated_nested");
+    verif_log("mode", mode);
     verif_log("evals", evals);
     verif_reach("end");
     return 0;
